@@ -238,7 +238,7 @@ def run_case(case: Dict[str, Any]) -> Dict[str, Any]:
             if len(client.rx) < len(expected_full_c):
                 return False
             return role != 'tunnel' or len(oc.rx) - base_o >= len(expected_o)
-        rig.until(all_in, [client, oc], idle_timeout=case.get('grace', 0.6))
+        rig.until(all_in, [client, oc], idle_timeout=case.get('grace', 0.6), max_wall=40 + size / 40000)
         if closed_by_origin:
             rig.until(lambda: client.ended, [client], idle_timeout=0.6)
         rig.settle([client, oc], quiet=8)
